@@ -408,7 +408,9 @@ class MPS:
                 return False
         return True
 
-    def shift_orthogonality_center_right(self, current_orthogonality_center: int, decomposition: str = "QR") -> None:
+    def shift_orthogonality_center_right(
+        self, current_orthogonality_center: int, decomposition: str = "QR", min_bond_dim: int = 2
+    ) -> None:
         """Shifts orthogonality center right.
 
         This function performs a QR decomposition to shift the known current center to the right and move
@@ -418,6 +420,7 @@ class MPS:
             current_orthogonality_center (int): current center
             decomposition: Decides between QR or SVD decomposition. QR is faster, SVD allows bond dimension to reduce
                            Default is QR.
+            min_bond_dim: Smallest bond dimension an SVD-based shift may truncate to. Default is 2.
         """
         tensor = self.tensors[current_orthogonality_center]
         if decomposition == "QR" or current_orthogonality_center == self.length - 1:
@@ -436,13 +439,15 @@ class MPS:
                 self.tensors[current_orthogonality_center],
                 self.tensors[current_orthogonality_center + 1],
             )
-            a_new, b_new = two_site_svd(a, b, threshold=1e-12, max_bond_dim=None)
+            a_new, b_new = two_site_svd(a, b, threshold=1e-12, max_bond_dim=None, min_bond_dim=min_bond_dim)
             (
                 self.tensors[current_orthogonality_center],
                 self.tensors[current_orthogonality_center + 1],
             ) = (a_new, b_new)
 
-    def shift_orthogonality_center_left(self, current_orthogonality_center: int, decomposition: str = "QR") -> None:
+    def shift_orthogonality_center_left(
+        self, current_orthogonality_center: int, decomposition: str = "QR", min_bond_dim: int = 2
+    ) -> None:
         """Shifts orthogonality center left.
 
         This function flips the network, performs a right shift, then flips the network again.
@@ -451,12 +456,15 @@ class MPS:
             current_orthogonality_center (int): current center
             decomposition: Decides between QR or SVD decomposition. QR is faster, SVD allows bond dimension to reduce
                 Default is QR.
+            min_bond_dim: Smallest bond dimension an SVD-based shift may truncate to. Default is 2.
         """
         self.flip_network()
-        self.shift_orthogonality_center_right(self.length - current_orthogonality_center - 1, decomposition)
+        self.shift_orthogonality_center_right(
+            self.length - current_orthogonality_center - 1, decomposition, min_bond_dim=min_bond_dim
+        )
         self.flip_network()
 
-    def set_canonical_form(self, orthogonality_center: int, decomposition: str = "QR") -> None:
+    def set_canonical_form(self, orthogonality_center: int, decomposition: str = "QR", min_bond_dim: int = 2) -> None:
         """Sets canonical form of MPS.
 
         Left and right normalizes an MPS around a selected site.
@@ -465,13 +473,14 @@ class MPS:
         Args:
             orthogonality_center (int): site of matrix MPS around which we normalize
             decomposition: Type of decomposition. Default QR.
+            min_bond_dim: Smallest bond dimension an SVD-based shift may truncate to. Default is 2.
         """
 
         def sweep_decomposition(orthogonality_center: int, decomposition: str = "QR") -> None:
             for site, _ in enumerate(self.tensors):
                 if site == orthogonality_center:
                     break
-                self.shift_orthogonality_center_right(site, decomposition)
+                self.shift_orthogonality_center_right(site, decomposition, min_bond_dim=min_bond_dim)
 
         sweep_decomposition(orthogonality_center, decomposition)
         self.flip_network()
@@ -479,7 +488,7 @@ class MPS:
         sweep_decomposition(flipped_orthogonality_center, decomposition)
         self.flip_network()
 
-    def normalize(self, form: str = "B", decomposition: str = "QR") -> None:
+    def normalize(self, form: str = "B", decomposition: str = "QR", min_bond_dim: int = 2) -> None:
         """Normalize MPS.
 
         Normalize the network to a specified form.
@@ -494,11 +503,14 @@ class MPS:
             form (str): The form to normalize the network to. Default is "B".
             decomposition: Decides between QR or SVD decomposition. QR is faster, SVD allows bond dimension to reduce
                            Default is QR.
+            min_bond_dim: Smallest bond dimension an SVD-based shift may truncate to. Default is 2.
         """
         if form == "B":
             self.flip_network()
 
-        self.set_canonical_form(orthogonality_center=self.length - 1, decomposition=decomposition)
+        self.set_canonical_form(
+            orthogonality_center=self.length - 1, decomposition=decomposition, min_bond_dim=min_bond_dim
+        )
         self.shift_orthogonality_center_right(self.length - 1, decomposition)
 
         if form == "B":
